@@ -323,8 +323,12 @@ class CFG:
         """ Remove the terminals involved in a body of length more than 1 """
         term_to_var = {}
         new_productions = []
+        taken = set(self._variables)
         for terminal in self._terminals:
             var = Variable(str(terminal.value) + "#CNF#")
+            while var in taken:
+                var = Variable(str(var.value) + "#")
+            taken.add(var)
             term_to_var[terminal] = var
         # We want to add only the useful productions
         used = set()
